@@ -277,7 +277,8 @@ def cons3 (s : SState) : SState :=
   if (cons2 s).endedUnconsumed > 0 then { cons2 s with endedUnconsumed := (cons2 s).endedUnconsumed - 1 }
   else (cons2 s).note .K "a finished scenario was consumed but none had ended"
 def consR (s : SState) (got : Bool) : SState :=
-  if got then { cons3 s with slots := (cons3 s).slots.onConsume } else cons2 s
+  if got then { cons3 s with slots := (cons3 s).slots.onConsume }
+  else (cons2 s).note .K "run_scenarios.next() yielded None (the set of running scenarios cannot be empty at the select)"
 
 theorem cons_eq (c : SCfg) (s : SState) (got : Bool) : stepL c s (.cons got) = consR s got := by
   cases got <;> rfl
@@ -290,15 +291,9 @@ theorem cons_inv (c : SCfg) (s : SState) (got : Bool) (h : InvK c s)
   have f1s : (cons1 s).slots = s.slots := by simp [cons1]
   cases got with
   | false =>
-    have hg1 : Good (cons1 s) = true := hg
-    obtain ⟨_, hph⟩ := good_mono_inPhase _ _ _ hg1
-    have hphase : s.phase = .selecting := by
-      simp only [List.contains_cons, List.contains_nil, Bool.or_false, beq_iff_eq] at hph; exact hph
-    have hni : s.phase ≠ .init := by rw [hphase]; decide
-    have fp : (consR s false).phase = .draining := rfl
-    refine ⟨fun hp => (by rw [fp] at hp; cases hp), fun _ k hk => ?_, fun hp => (by rw [fp] at hp; cases hp)⟩
-    simp only [consR, cons2, Bool.false_eq_true, if_false, f1r, f1e, f1s]
-    exact h.2.1 hni k hk
+    exfalso
+    have := (good_note _ _ _ (show Good ((cons2 s).note .K "run_scenarios.next() yielded None (the set of running scenarios cannot be empty at the select)") = true from hg)).2
+    exact this.1 rfl
   | true =>
     have hg3 : Good (cons3 s) = true := hg
     have hpos : (cons2 s).endedUnconsumed > 0 ∧ Good (cons2 s) = true := by
